@@ -25,7 +25,7 @@ def family():
     import jax
     jax.config.update("jax_enable_x64", True)
     import jaxley as jx
-    from jaxley.channels import HH, K, Leak, Na
+    from jaxley.channels import HH, K, Km, Leak, Na
     c1 = jx.Compartment()
     c1.insert(HH())
     c1.set("radius", 2.0)
@@ -41,23 +41,29 @@ def family():
     c4.insert(K())              # shares vt
     c4.set("capacitance", 2.0)
     c5 = jx.Compartment()       # no channel at all
+    c6 = jx.Compartment()       # two different channels that share a current name (i_K) - and a parameter (vt) with c4's
+    c6.insert(K())
+    c6.insert(Km())
     b1 = jx.Branch([c1, c2])
     b2 = jx.Branch(c3, ncomp=2)
     b3 = jx.Branch([c2, c4, c5])
     b4 = jx.Branch([c5])
+    b5 = jx.Branch([c6, c1])
     cellA = jx.Cell([b1, b2], parents=[-1, 0])
     cellB = jx.Cell([b3], parents=[-1])
     cellC = jx.Cell([b2, b1, b4], parents=[-1, 0, 0])
     cellD = jx.Cell([b4], parents=[-1])
+    cellE = jx.Cell([b5, b2], parents=[-1, 0])
     F = {
-        "branches": [("Branch[c1,c2]", b1, [c1, c2]), ("Branch[c3]x2", b2, [c3, c3]), ("Branch[c2,c4,c5]", b3, [c2, c4, c5]), ("Branch[c5]", b4, [c5])],
-        "cells": [("Cell[b1,b2]", cellA, [b1, b2]), ("Cell[b3]", cellB, [b3]), ("Cell[b2,b1,b4]", cellC, [b2, b1, b4]), ("Cell[b4]", cellD, [b4])],
+        "branches": [("Branch[c1,c2]", b1, [c1, c2]), ("Branch[c3]x2", b2, [c3, c3]), ("Branch[c2,c4,c5]", b3, [c2, c4, c5]), ("Branch[c5]", b4, [c5]), ("Branch[c6,c1]", b5, [c6, c1])],
+        "cells": [("Cell[b1,b2]", cellA, [b1, b2]), ("Cell[b3]", cellB, [b3]), ("Cell[b2,b1,b4]", cellC, [b2, b1, b4]), ("Cell[b4]", cellD, [b4]), ("Cell[b5,b2]", cellE, [b5, b2])],
     }
     F["nets"] = [("Net[A,B]", jx.Network([cellA, cellB]), [cellA, cellB]), ("Net[B,A]", jx.Network([cellB, cellA]), [cellB, cellA]),
                  ("Net[A,C,D]", jx.Network([cellA, cellC, cellD]), [cellA, cellC, cellD]), ("Net[D,D]", jx.Network([cellD, cellD]), [cellD, cellD]),
-                 ("Net[C,B]", jx.Network([cellC, cellB]), [cellC, cellB])]
+                 ("Net[C,B]", jx.Network([cellC, cellB]), [cellC, cellB]), ("Net[E,B]", jx.Network([cellE, cellB]), [cellE, cellB])]
     F["single"] = [("Cell[b1] vs Branch b1", jx.Cell([b1], parents=[-1]), b1), ("Cell[b3] vs Branch b3", cellB, b3), ("Branch[c1] vs Compartment c1", jx.Branch([c1]), c1),
-                   ("Branch[c4] vs Compartment c4", jx.Branch([c4]), c4)]
+                   ("Branch[c4] vs Compartment c4", jx.Branch([c4]), c4), ("Branch[c6] vs Compartment c6", jx.Branch([c6]), c6),
+                   ("Cell[b5] vs Branch b5", jx.Cell([b5], parents=[-1]), b5)]
     return F
 
 
@@ -93,6 +99,13 @@ def table_contract(name, M, parts):
         off += len(xn)
     if off != len(nodes):
         bad.append("row count differs from the sum of the constituents")
+    # the assembled module KNOWS every constituent's mechanisms (they are what gets stepped): channel names and current names
+    want_ch = sorted({c._name for X in parts if hasattr(X, "channels") for c in X.channels})
+    if sorted(all_channel_names) != want_ch:
+        bad.append(f"channels of the assembled module {sorted(all_channel_names)} != union of the constituents' channels {want_ch}")
+    want_cur = sorted({c.current_name for X in parts if hasattr(X, "channels") for c in X.channels})
+    if sorted(M.membrane_current_names) != want_cur:
+        bad.append(f"membrane current names {sorted(M.membrane_current_names)} != union of the constituents' {want_cur}")
     return bad
 
 
